@@ -339,14 +339,14 @@ def nth_path_spec(an, it, name, path, r):
     return UNKNOWN, "return value %s is neither the delegation's result, None, nor Some(slot read)" % vstr(rv)
 
 
-def ownership_path(an, it, name, path, r):
+def ownership_path(an, it, name, path, r, byval=False, forgotten=False):
     """Ownership reading of one return path of a `&mut self` iterator method (used by C03.I): the elements the iterator claimed at entry,
     [index0, back0), are - at the delegation to next()/next_back() or at the return - exactly partitioned into the ranges destroyed in place,
     the slots moved out (and handed to the caller), and the range the iterator still claims."""
     from ..rules import tiling, is_view, is_panic_plumbing
     N, S = NS(an)
-    lo, hi = it.entry(an, False)
-    base = ("arg", 1)
+    lo, hi = it.entry(an, byval)
+    base = ("local", 1) if byval else ("arg", 1)
     cur = {it.i0: lo, it.i1: hi}
     pieces = []
     facts = set(r["facts"])
@@ -399,6 +399,10 @@ def ownership_path(an, it, name, path, r):
     if deleg is not None and rv != deleg.ret:
         return REFUTED, "the delegation's result is not what is returned"
     claimed = (cur[it.i0] * S, (cur[it.i1] - cur[it.i0]) * S)
+    if forgotten:
+        # by-value method that forgets self: nothing is claimed any more - what was not destroyed or moved out is leaked,
+        # what was destroyed or moved out must not overlap
+        claimed = (cur[it.i0] * S, Poly.const(0))
     if no_drop_glue(an, fs):
         # nothing needs destroying: the still-claimed range must stay inside the entry range and exclude every moved-out / destroyed piece
         ok = prove((">=", cur[it.i0] - lo), pf) and prove((">=", hi - cur[it.i1]), pf) and prove((">=", cur[it.i1] - cur[it.i0]), pf)
